@@ -20,7 +20,8 @@ RULE = ("cases = (policy, loop order of depth 1-3, tensors with rank lists/shape
         "staging line (buffet and cache); every line sequence of <= 5/6 rows over 3 lines x capacities 0..4 lines, unbounded "
         "(cache), also with stamp ties; all small filter / combine / next-use inputs. random: 1-3 bindings over 1-2 tensors, "
         "loop_ranks renaming, several elements per line, shared trace files, ties, multi-digit stamps / coordinates / "
-        "positions (9 next to 10, 2 next to 11, 100; also exhaustively for filter / combine / next-use). non-trivial = some line is reused "
+        "positions (9 next to 10, 2 next to 11, 100; also exhaustively for filter / combine / next-use), ranks declared "
+        "format U or C, every binding type x cbits/pbits/line-size combination (elements per line). non-trivial = some line is reused "
         "(buffet/cache), some row dropped and some kept (filter), both files non-empty (combine), a reuse (nextuse)")
 
 _T = {}
@@ -154,7 +155,8 @@ def _call_traffic(case, cap, rows_of):
         specs = {}
         for f in case["fmts"]:
             specs.setdefault(f["tensor"], {})[f["rank"]] = {
-                "cbits": f["cbits"], "pbits": f["pbits"], "layout": _layout(case, f["tensor"], f["rank"])}
+                "cbits": f["cbits"], "pbits": f["pbits"], "format": f.get("format", "C"),
+                "layout": _layout(case, f["tensor"], f["rank"])}
         formats = {nm: Format(tensors[nm], specs.get(nm, {})) for nm in tensors}
         trace_fns, contents = {}, {}
         for k, t in enumerate(case["traces"]):
@@ -288,12 +290,15 @@ def run(case):
 # generators
 # ---------------------------------------------------------------------------------------
 
-def _case(op, tensors, bindings, traces, ls, caps, loop_ranks=(), bits=None, jitter_seed=None, **kw):
+def _case(op, tensors, bindings, traces, ls, caps, loop_ranks=(), bits=None, jitter_seed=None, ufmt=(), **kw):
+    """`ufmt`: the (tensor, rank) pairs declared with format "U" (the element footprint that sets the
+    number of elements per line does not depend on the declared format)"""
     fmts = []
     for t in tensors:
         for r in t["ranks"]:
             cb, pb = (bits or {}).get((t["name"], r), (32, 32))
-            fmts.append({"tensor": t["name"], "rank": r, "cbits": cb, "pbits": pb})
+            fmts.append({"tensor": t["name"], "rank": r, "cbits": cb, "pbits": pb,
+                         "format": "U" if (t["name"], r) in ufmt else "C"})
     c = {"prop": PROP, "op": op, "tensors": tensors, "fmts": fmts, "loop_ranks": [list(x) for x in loop_ranks],
          "bindings": bindings, "traces": traces, "ls": ls, "caps": caps, "jitter_seed": jitter_seed}
     c.update(kw)
@@ -351,6 +356,29 @@ def _small_buffet(tier):
                             tr.append({"tensor": "Z", "rank": "K", "type": "payload", "access": "read",
                                        "header": ["M", "K"], "rows": rr})
                         yield _case("buffet", tens, b, tr, 32, [32], kind="small-rw")
+
+
+def _small_widths(tier):
+    """elements per line = line_sz // footprint(type): every binding type x declared format U/C x
+    cbits/pbits/line-size combinations, on a trace that walks positions 0..7 twice"""
+    tens = [{"name": "A", "ranks": ["K"], "shape": [8]}]
+    rows = [[t, p, p] for t, p in enumerate(list(range(8)) + [0, 3, 4, 7])]
+    widths = (8, 16, 32) if tier == "quick" else (8, 16, 24, 32, 64)
+    for ty in ("elem", "coord", "payload"):
+        for fmt in ("U", "C"):
+            for cb in widths:
+                for pb in widths:
+                    for ls in (32, 64, 96):
+                        foot = {"elem": cb + pb, "coord": cb, "payload": pb}[ty]
+                        if foot > ls:
+                            continue
+                        tr = [{"tensor": "A", "rank": "K", "type": ty, "access": "read", "header": ["K"], "rows": rows}]
+                        uf = {("A", "K")} if fmt == "U" else ()
+                        yield _case("buffet", tens, [{"tensor": "A", "rank": "K", "type": ty, "evict_on": "root"}],
+                                    tr, ls, [None], bits={("A", "K"): (cb, pb)}, ufmt=uf, kind="small-widths")
+                        yield _case("cache", tens, [{"tensor": "A", "rank": "K", "type": ty}],
+                                    copy.deepcopy(tr), ls, [ls, None], bits={("A", "K"): (cb, pb)}, ufmt=uf,
+                                    kind="small-widths")
 
 
 def _small_cache(tier):
@@ -552,7 +580,8 @@ def _random_traffic(rng, op, tier):
         caps = sorted(set(rng.sample([0, ls // 2, ls, 2 * ls, 3 * ls, 4 * ls, nlines * ls, 2 * ls + ls // 2], 3)))
         if rng.random() < 0.5:
             caps.append(None)
-    return _case(op, tensors, bindings, traces, ls, caps, loop_ranks=loop_ranks, bits=bits,
+    ufmt = {(t["name"], r) for t in tensors for r in t["ranks"] if rng.random() < 0.4}
+    return _case(op, tensors, bindings, traces, ls, caps, loop_ranks=loop_ranks, bits=bits, ufmt=ufmt,
                  jitter_seed=rng.randrange(1 << 30), kind="random")
 
 
@@ -623,6 +652,7 @@ def gen(seed, tier):
     yield from _small_tools(tier)
     yield from _small_buffet(tier)
     yield from _small_cache(tier)
+    yield from _small_widths(tier)
     rng = random.Random(seed)
     nrand = 2500 if tier == "quick" else 40000
     for i in range(nrand):
